@@ -90,8 +90,10 @@ def gen_seq(tp, tier):
                 steps.append(['tt'])
             elif r < 12 and gen:
                 steps.append(['ret'])
-            elif r < 14:
+            elif r < 13:
                 steps.append(['raise'])
+            elif r < 14:
+                steps.append(['raise_base'])
             elif r < 16:
                 steps.append(['yar', tp.choice(VALS)])
             elif r < 18:
@@ -221,6 +223,9 @@ class SeqModel:
                 elif k == 'raise':
                     self._done(r)
                     raise Other
+                elif k == 'raise_base':
+                    self._done(r)          # any failure, not only Exception
+                    raise Other('KeyboardInterrupt')
                 elif k == 'yar':
                     self.pc[r] = 0
                     self.state[r] = 'Init'
@@ -305,6 +310,8 @@ def run_seq(case):
                                main.current_tt is me))
             elif k == 'raise':
                 raise ValueError('script')
+            elif k == 'raise_base':
+                raise KeyboardInterrupt('script')
             elif k == 'yar':
                 raise sstm.YieldAndReset(s[1])
             elif k == 'ay':
@@ -382,7 +389,7 @@ def run_seq(case):
                 got = ('exc', 'PausedStream')
             except sstm.StopStream:
                 got = ('exc', 'StopStream')
-            except Exception as e:
+            except BaseException as e:
                 got = ('exc', type(e).__name__)
             if got != exp:
                 viol.add('C11-1', f'next-{exp[0]}-{exp[1] if exp[0] == "exc" else "value"}',
